@@ -369,3 +369,8 @@ def t_rhs(sess, n_grains, regime):
     if not reached:
         sess.reach.append(type("Q", (), {"name": f"{tag}: reach", "verdict": "unknown", "secs": 0.0})())
     sample(sess, obligation="frame indifference of the rhs", config=tag, paths=len(paths))
+
+
+def default_cex(name):
+    """Generic public-API replay for verdicts that carry no more specific counterexample."""
+    return {"replay": "vf.props.replays:c04_frames", "case": {}, "cls": {"kind": "rates or textures are not frame indifferent / symmetry invariant"}}
